@@ -581,6 +581,7 @@ func init() {
 		ct := civ.typ.Underlying().(*types.Pointer).Elem()
 		st := ex.peek(cp).(*StructV)
 		st.fs[0] = ex.havocValue(ct.Underlying().(*types.Struct).Field(0).Type(), "cursor.next", 0)
+		ex.W.jwtNext = &IfaceV{typ: ct.Underlying().(*types.Struct).Field(0).Type(), v: st.fs[0]}
 		// the key function is consulted
 		ex.callValue(fr, a[2], []Value{&PtrV{typ: tokT}}, s)
 		if k == 1 {
@@ -593,6 +594,12 @@ func init() {
 	for _, n := range []string{"(github.com/golang-jwt/jwt.ValidationError).Error", "(*github.com/golang-jwt/jwt.ValidationError).Error"} {
 		intercepts[n] = func(ex *Exec, fr *Frame, a []Value, s ssa.Instruction) Value { return ex.tt.Str("token is invalid") }
 	}
+	vx("JwtClaimsNext", func(ex *Exec, fr *Frame, a []Value, s ssa.Instruction) Value {
+		if ex.W.jwtNext == nil {
+			return &IfaceV{}
+		}
+		return ex.W.jwtNext
+	})
 	vx("JwtOutcome", func(ex *Exec, fr *Frame, a []Value, s ssa.Instruction) Value { return ex.tt.Str(ex.W.jwtOutcome) })
 	intercepts[cur+"Encode"] = func(ex *Exec, fr *Frame, a []Value, s ssa.Instruction) Value {
 		ex.H.noteStub("jwt cursor: Encode returns an opaque token")
@@ -1261,5 +1268,35 @@ func init() {
 			return ex.tt.BV(uint64(strings.Count(xs, ps)), 64)
 		}
 		panic(ex.unsupported("strings.Count on symbolic strings"))
+	}
+}
+
+func init() {
+	// the same datum in the same representation: false when the static types differ (a 64-bit integer that
+	// travels through a float, a string that becomes bytes, ...), otherwise value equality
+	vx("SameDatum", func(ex *Exec, fr *Frame, a []Value, s ssa.Instruction) Value {
+		x, ok1 := a[0].(*IfaceV)
+		y, ok2 := a[1].(*IfaceV)
+		if !ok1 || !ok2 || x.typ == nil || y.typ == nil {
+			return ex.tt.Bool(false)
+		}
+		if !types.Identical(x.typ, y.typ) {
+			return ex.tt.Bool(false)
+		}
+		return ex.eqValues(x.v, y.v)
+	})
+	intercepts["maps.clone"] = func(ex *Exec, fr *Frame, a []Value, s ssa.Instruction) Value {
+		iv := a[0].(*IfaceV)
+		mv, ok := iv.v.(*MapV)
+		if !ok || mv.m == nil {
+			return iv
+		}
+		c := *mv.m
+		ex.nobj++
+		c.id = ex.nobj
+		c.keys = append([]*Term{}, mv.m.keys...)
+		c.ks = append([]Value{}, mv.m.ks...)
+		c.vs = append([]Value{}, mv.m.vs...)
+		return &IfaceV{typ: iv.typ, v: &MapV{m: &c}}
 	}
 }
